@@ -88,16 +88,24 @@ def contractionFlattenBin : Rule
     | none => none
   | _ => none
 
-/-- branch 6b: `bin_op is null and v.red_op in (red_op, null)`:
-    `Contraction(red, null, vars, Contraction(vred, vbin, vvars, vterms)) ↦
-     Contraction(red', vbin, vars ∪ vvars, vterms)`. -/
+/-- branch 6b, null cases: `bin_op is null and v.red_op in (red_op, null)` where one of the two reductions is
+    null: `Contraction(red, null, vars, Contraction(null, vbin, {}, vterms)) ↦ Contraction(red, vbin, vars, vterms)`
+    and `Contraction(null, null, {}, Contraction(vred, vbin, vvars, vterms)) ↦ Contraction(vred, vbin, vvars, vterms)`. -/
 def contractionFlattenRed : Rule
   | Term.contraction red "null" vars [Term.contraction vred vbin vvars vts] =>
     if vred == "null" then
       (if vvars.isEmpty then some (Term.contraction red vbin vars vts) else none)
     else if red == "null" then
       (if vars.isEmpty then some (Term.contraction vred vbin vvars vts) else none)
-    else if vred == red then some (Term.contraction red vbin (vars ++ vvars) vts)
+    else none
+  | _ => none
+
+/-- branch 6b, same reduction twice: `Contraction(red, null, vars, Contraction(red, vbin, vvars, vterms)) ↦
+    Contraction(red, vbin, vars ∪ vvars, vterms)` (executable model, tied to the code by the harness; its
+    soundness needs `red` associative-commutative and the binders distinct — not proved here). -/
+def contractionFuseSameRed : Rule
+  | Term.contraction red "null" vars [Term.contraction vred vbin vvars vts] =>
+    if vred != "null" && red != "null" && vred == red then some (Term.contraction red vbin (vars ++ vvars) vts)
     else none
   | _ => none
 
@@ -175,6 +183,7 @@ def ruleTable : List (String × Rule) :=
    ("contractionNoVars", contractionNoVars), ("contractionSingleTerm", contractionSingleTerm),
    ("contractionTrivial", contractionTrivial), ("contractionDropUnits", contractionDropUnits),
    ("contractionFlattenBin", contractionFlattenBin), ("contractionFlattenRed", contractionFlattenRed),
+   ("contractionFuseSameRed", contractionFuseSameRed),
    ("subsFuse", subsFuse), ("numberBinary", numberBinary), ("numberUnary", numberUnary),
    ("lambdaGetitem", lambdaGetitem), ("stackSelect", stackSelect), ("reduceUnrelated", reduceUnrelated)]
 
